@@ -16,7 +16,18 @@
 //!
 //! Case grammar (space separated):
 //!   sc[:<generator stream label, not interpreted>] <g|n|t|u|gs> b<duplex buffer> p<payload bytes>
-//!      a<0|1 max_connection_age configured> <step>*
+//!      a<0|1 max_connection_age configured> [t<secs>] [k<secs>] [l<n>] <step>*
+//!      (optional server configuration, in this order:
+//!       t<secs> = `Server::timeout(secs)`: every handler runs under `GrpcTimeout`; a call whose
+//!                 handler has not returned its response (the response HEAD: one phase of this
+//!                 harness's handlers) within <secs> of being invoked is answered CANCELLED
+//!                 "Timeout expired" by the server (`s1T`); a call past its head is out of the
+//!                 timeout's reach, however long its body streams, shutdown or not;
+//!       k<secs> = `http2_keepalive_interval(secs)` + `http2_keepalive_timeout(20 s)` over duplex
+//!                 pipes, `tcp_keepalive(secs)` + `tcp_nodelay` over TCP - the peers are alive,
+//!                 so neither is expected to show;
+//!       l<n>    = `concurrency_limit_per_connection(n)` + `max_concurrent_streams(n)`, n above
+//!                 the number of calls a script puts on one connection - expected not to show)
 //!      (g = serve_with_incoming_shutdown, n = serve_with_incoming, both over in-memory duplex pipes;
 //!       t = serve_with_shutdown(addr, signal), u = serve(addr), both over loopback TCP;
 //!       requests and response messages are p bytes; the duplex buffer size sets the transport
@@ -71,8 +82,9 @@
 //! Observed (times; `-` = never):
 //!   R<resolvedAt>:<open server IOs at that instant (`*` in mode n)>:<ok|err>
 //!   c<i>:<accepted 0|1>:<server IO dropped at>
-//!   k<j>:<handler started 0|1>:<headers 0|1|bad>:<good messages|bad>:<status s<code>|s<code>!|->:<client done at>
-//!        (`s<code>!` = status text is not the handler's; message contents, the `x-k` response
+//!   k<j>:<handler started 0|1>:<headers 0|1|bad>:<good messages|bad>:<status s<code>|s<code>!|s1T|->:<client done at>
+//!        (`s<code>!` = status text is not the handler's; `s1T` = CANCELLED "Timeout expired", the
+//!         server's answer when `Server::timeout` ran out; message contents, the `x-k` response
 //!         header and the status text are all checked per call)
 //!   k<j>:0:0:0:ns:-   the server never saw the call (whatever local error the client got)
 //!   hang              the virtual-time watchdog fired
@@ -131,6 +143,12 @@ struct Script {
     buf: usize,
     payload: usize,
     age: bool,
+    /// `Server::timeout(d)`, seconds
+    timeout: Option<u64>,
+    /// `http2_keepalive_interval` (duplex) / `tcp_keepalive` (TCP), seconds
+    keepalive: Option<u64>,
+    /// `concurrency_limit_per_connection` and `max_concurrent_streams`
+    limit: Option<usize>,
     steps: Vec<Step>,
 }
 
@@ -154,9 +172,27 @@ fn parse(case: &str) -> Option<Script> {
         "a1" => true,
         _ => return None,
     };
+    // optional configuration tokens, in this order: t<secs> k<secs> l<n>
+    let mut at = 5;
+    let mut opt = |prefix: char, max: u64| -> Result<Option<u64>, ()> {
+        match t.get(at).and_then(|x| x.strip_prefix(prefix)) {
+            Some(d) if !d.is_empty() && d.bytes().all(|b| b.is_ascii_digit()) => {
+                let v: u64 = d.parse().map_err(|_| ())?;
+                if v == 0 || v > max {
+                    return Err(());
+                }
+                at += 1;
+                Ok(Some(v))
+            }
+            _ => Ok(None),
+        }
+    };
+    let timeout = opt('t', 1_000_000).ok()?;
+    let keepalive = opt('k', 1_000_000).ok()?;
+    let limit = opt('l', 1000).ok()?.map(|v| v as usize);
     let mut steps = Vec::new();
     let (mut nconn, mut ncall) = (0usize, 0usize);
-    for s in &t[5..] {
+    for s in &t[at..] {
         let (body, yields) = match s.split_once('~') {
             Some((b, y)) => (b, Some(y.parse::<usize>().ok()?)),
             None => (*s, None),
@@ -270,7 +306,7 @@ fn parse(case: &str) -> Option<Script> {
         }
         steps.push(Step { op, yields });
     }
-    Some(Script { graceful, transport, tls, buf, payload, age, steps })
+    Some(Script { graceful, transport, tls, buf, payload, age, timeout, keepalive, limit, steps })
 }
 
 // ---------------------------------------------------------------- shared observation state
@@ -329,6 +365,9 @@ fn message(k: usize, j: usize, len: usize) -> Vec<u8> {
 }
 
 const AGE: Duration = Duration::from_secs(3600);
+const KEEPALIVE_TIMEOUT: Duration = Duration::from_secs(20);
+/// what `GrpcTimeout` + `RecoverError` answer when `Server::timeout` runs out: CANCELLED with this text
+const TIMEOUT_TEXT: &str = "Timeout expired";
 
 // ---------------------------------------------------------------- server-side IO wrapper
 
@@ -485,6 +524,8 @@ impl AsyncWrite for CliIo {
 struct Expect {
     graceful_mode: bool,
     age: bool,
+    /// `Server::timeout`, seconds
+    timeout: Option<u64>,
     sig: bool,
     now: u64,
     conns: Vec<ExpConn>,
@@ -510,6 +551,11 @@ struct ExpCall {
     permits: usize,
     req_left: usize,
     cancelled: bool,
+    /// when the call was issued (= when its handler is invoked, if it is)
+    start_at: u64,
+    /// `Server::timeout` ran out before the handler could produce the response head: the server
+    /// answers the call itself, the handler is gone
+    expired: bool,
 }
 
 impl Expect {
@@ -534,7 +580,7 @@ impl Expect {
         self.conns[c].accept
             && !self.conns[c].dropped
             && self.conn_graceful(c)
-            && (0..self.calls.len()).all(|k| self.calls[k].conn != c || !self.live(k) || self.produced(k) == self.calls[k].phases)
+            && (0..self.calls.len()).all(|k| self.calls[k].conn != c || !self.live(k) || self.calls[k].expired || self.produced(k) == self.calls[k].phases)
     }
     fn resolves(&self) -> bool {
         self.graceful_mode && self.sig && (0..self.conns.len()).all(|c| !self.conns[c].accept || self.conns[c].dropped || self.conn_closes(c))
@@ -545,6 +591,13 @@ impl Expect {
             for c in self.conns.iter_mut() {
                 if c.accept && self.now - c.acc_at >= AGE.as_secs() {
                     c.aged = true;
+                }
+            }
+        }
+        if let Some(d) = self.timeout {
+            for k in 0..self.calls.len() {
+                if self.live(k) && !self.calls[k].expired && self.produced(k) == 0 && self.now - self.calls[k].start_at >= d {
+                    self.calls[k].expired = true;
                 }
             }
         }
@@ -574,6 +627,13 @@ impl Expect {
             }
             let p = self.produced(k);
             let done = r.done_at.is_some();
+            if e.expired {
+                // the server's "Timeout expired" reached the client
+                if !done {
+                    return false;
+                }
+                continue;
+            }
             match e.kind {
                 Kind::Unary | Kind::CStream => {
                     if p >= 1 && !done {
@@ -959,7 +1019,11 @@ impl tower_service::Service<http::Request<tonic::body::Body>> for GateSvc {
 
 fn status_token(k: usize, st: &Status) -> String {
     let code = st.code() as i32;
-    if st.message() == format!("e{}", k) {
+    if code == tonic::Code::Cancelled as i32 && st.message() == TIMEOUT_TEXT {
+        // the server's own answer to a call whose handler did not produce the response head within
+        // `Server::timeout`
+        "s1T".into()
+    } else if st.message() == format!("e{}", k) {
         format!("s{}", code)
     } else {
         format!("s{}!", code)
@@ -1169,6 +1233,21 @@ fn new_router(sc: &Script, sh: &Sh) -> tonic::transport::server::Router {
     if sc.age {
         builder = builder.max_connection_age(AGE);
     }
+    if let Some(d) = sc.timeout {
+        builder = builder.timeout(Duration::from_secs(d));
+    }
+    if let Some(k) = sc.keepalive {
+        if sc.transport == Transport::Tcp {
+            // HTTP/2 keepalive pings travel through the kernel there, and the paused clock leaps
+            // to the ping timeout while the ack is still on its way: TCP keepalive instead
+            builder = builder.tcp_keepalive(Some(Duration::from_secs(k))).tcp_nodelay(true);
+        } else {
+            builder = builder.http2_keepalive_interval(Some(Duration::from_secs(k))).http2_keepalive_timeout(Some(KEEPALIVE_TIMEOUT));
+        }
+    }
+    if let Some(l) = sc.limit {
+        builder = builder.concurrency_limit_per_connection(l).max_concurrent_streams(Some(l as u32));
+    }
     builder.add_service(GateSvc { sh: sh.clone() })
 }
 
@@ -1270,7 +1349,7 @@ async fn run(sc: Script) -> String {
             }
         }
     }
-    let mut exp = Expect { graceful_mode: graceful, age: sc.age, ..Default::default() };
+    let mut exp = Expect { graceful_mode: graceful, age: sc.age, timeout: sc.timeout, ..Default::default() };
 
     let mut channels: Vec<Slot> = Vec::new();
     // TLS: connection attempts in progress, silent clients (client end, result sender), and the
@@ -1445,6 +1524,8 @@ async fn run(sc: Script) -> String {
                     permits: 0,
                     req_left: m,
                     cancelled: false,
+                    start_at: exp.now,
+                    expired: false,
                 });
                 match &channels[c] {
                     Slot::Now(Some(ch)) => {
@@ -1888,6 +1969,45 @@ fn corpus() -> Vec<String> {
         "sc:corpus g b1024 p10 a1 C W3599 C W1 U0:0 U1:0 A0 W3599 U1:0",
         "sc:corpus g b1024 p10 a0 W7200 C U0:0 W61 G W61 A0 W61",
         "sc:corpus n b1024 p10 a0 C U0:0 W7200 A0 E W61",
+        // Server::timeout (t<secs>), with http2 / tcp keepalive (k<secs>) and a concurrency / stream
+        // limit (l<n>): the timeout bounds the time to the response head only.  A streaming body
+        // that goes on for longer than the timeout after the signal is not cut …
+        "sc:corpus g b1024 p10 a0 t30 C S0:2:0 A0 G W31 A0 A0 A0",
+        "sc:corpus g b1024 p10 a0 t30 C S0:2:0 A0 A0 G W61 A0 W31 A0",
+        "sc:corpus g b1024 p10 a0 t30 C B0:2:1:0 A0 M0 G W31 A0 M0 A0 A0",
+        "sc:corpus g b1024 p10 a0 t30 k10 l8 C B0:2:1:0 A0 M0 G W31 A0 M0 A0 W3600 A0",
+        "sc:corpus g b1024 p10 a1 t30 C S0:1:0 A0 T G W31 A0 A0",
+        "sc:corpus g b1024 p10 a0 t30 C S0:2:5 A0 W31 A0 G W31 A0 A0 C U1:0",
+        "sc:corpus g b32 p70000 a0 t30 C S0:2:0 A0 A0 G W31 A0 A0",
+        "sc:corpus g b1024 p10 a0 t30 C C S0:1:0 S1:1:0 A0 A1 G W29 A0 W1 A1 W31 A0 A1",
+        "sc:corpus n b1024 p10 a0 t30 C S0:2:0 A0 W31 A0 E W31 A0 A0",
+        "sc:corpus t b0 p10 a0 t45 C S0:2:0 A0 G W61 A0 A0 A0",
+        "sc:corpus t b0 p10 a0 t45 k10 l8 C B0:2:1:0 A0 M0 G W61 A0 M0 A0 W3600 A0",
+        "sc:corpus gs b1024 p10 a0 t30 C S0:2:0 A0 G W31 A0 A0 A0",
+        "sc:corpus gs b1024 p10 a0 t30 k10 C H S0:1:0 A0 G W31 h1 A0 A0",
+        // … while a call that is still before its response head when the timeout runs out is
+        // answered CANCELLED "Timeout expired" by the server (before, at and after the signal)
+        "sc:corpus g b1024 p10 a0 t30 C S0:2:0 G W31 A0 A0 A0 A0",
+        "sc:corpus g b1024 p10 a0 t30 C U0:0 W29 A0",
+        "sc:corpus g b1024 p10 a0 t30 C U0:0 W29 W1 A0",
+        "sc:corpus g b1024 p10 a0 t30 C U0:0 W31 A0 G",
+        "sc:corpus g b1024 p10 a0 t30 C U0:5 G W31 A0",
+        "sc:corpus g b1024 p10 a0 t30 C Q0:2:0 M0 A0 W31 M0 G",
+        "sc:corpus g b1024 p10 a0 t30 C Q0:2:0 M0 A0 G W31 M0",
+        "sc:corpus g b1024 p10 a0 t30 C B0:2:1:0 M0 G W31 A0 M0 A0 A0",
+        "sc:corpus g b1024 p10 a0 t30 C U0:0 S0:1:0 A1 G W31 A0 A1 A1",
+        "sc:corpus g b1024 p10 a0 t3000 C U0:0 S0:1:0 A1 G W31 A0 T A1 A1",
+        "sc:corpus g b1024 p10 a0 t100000 k60 l64 C U0:0 S0:1:0 A1 G W7200 A0 A1 A1",
+        "sc:corpus t b0 p10 a0 t45 C U0:0 W61 A0 G",
+        "sc:corpus t b0 p10 a0 t45 C Q0:2:0 M0 A0 G W61 M0",
+        "sc:corpus u b0 p10 a0 t45 C S0:1:0 U0:0 A0 W61 A0 A0 A1",
+        "sc:corpus gs b1024 p10 a0 t30 C U0:0 W31 A0 G",
+        "sc:corpus gs b1024 p10 a0 t30 H U0:0 W31 h0 A0 G",
+        "sc:corpus g b1024 p10 a0 t30 C U0:0~0 G W31 A0",
+        "sc:corpus g b1024 p10 a0 t30 C U0:0 W31 X0 G",
+        "sc:corpus g b1024 p10 a0 t30 C S0:1:0 A0 W31 D0 G",
+        "sc:corpus g b1024 p10 a0 k10 C U0:0 W7200 A0 G W61",
+        "sc:corpus g b1024 p10 a0 l8 C U0:0 S0:1:0 Q0:1:0 B0:1:1:0 G A0 A1 M2 A2 M3 A3 A1 A3 A1 A3",
         "sc:corpus g b1024 p10 a0 Io C Ir U0:0 G",
         "sc:corpus g b1024 p10 a0 C S0:2:0 A0 X0 G",
         "sc:corpus g b32 p70000 a0 C S0:2:0 U0:0 A0 A0 G A1 A0 A0",
@@ -1937,6 +2057,15 @@ fn sprinkle_time(ops: &[String], rng: &mut Rng, max: u64, tcp: bool) -> Vec<Stri
     v
 }
 
+/// "time passes" somewhere after the (first) trigger `trig`: between the shutdown request and the
+/// completion of the calls that are in flight
+fn time_after(ops: &[String], rng: &mut Rng, trig: &str, tcp: bool) -> Vec<String> {
+    let from = ops.iter().position(|t| t == trig).map(|i| i + 1).unwrap_or(0);
+    let at = rng.range(from as u64, ops.len() as u64) as usize;
+    let t = if tcp { tcp_wait_tok(rng) } else { wait_tok(rng) };
+    insert_at(ops, at, &[t])
+}
+
 /// the signal at every phase boundary of every call: all insertion points of `G` (and `E`, and a
 /// time step) into a scenario whose handler phases are spelled out one per step
 fn placements(out: &mut Vec<String>, rng: &mut Rng, g: &Gen, mode: &str, trig: &str, age: bool, probe: bool, races: u64) {
@@ -1954,6 +2083,9 @@ fn placements(out: &mut Vec<String>, rng: &mut Rng, g: &Gen, mode: &str, trig: &
         }
         if timed {
             ops = sprinkle_time(&ops, rng, 2, mode == "t");
+            if rng.chance(1, 2) {
+                ops = time_after(&ops, rng, trig, mode == "t");
+            }
         }
         if races > 0 {
             ops = add_races(&ops, rng, races);
@@ -2010,8 +2142,11 @@ fn phases(out: &mut Vec<String>, rng: &mut Rng, n: usize) {
         let (buf, payload) = pick_sizes(rng, ncalls);
         let trig = if i % 5 == 4 { "E" } else { "G" };
         let mut ops = insert_at(&g.ops, at, &[trig.to_string()]);
-        if rng.chance(1, 3) {
+        if rng.chance(1, 2) {
             ops = sprinkle_time(&ops, rng, 2, false);
+            if rng.chance(1, 2) {
+                ops = time_after(&ops, rng, trig, false);
+            }
         }
         let racy = rng.chance(1, 4);
         if racy {
@@ -2270,7 +2405,48 @@ fn interleave(base: Vec<String>, extra: Vec<String>) -> Vec<String> {
     out
 }
 
+/// The server configuration knobs that interact with shutdown, added to a generated case (after
+/// its `a<0|1>` token): `Server::timeout` none / short (around the 29 s and 31 s time steps) / a
+/// minute / long / longer than any script; http2 (duplex) or tcp (TCP) keepalive; a
+/// concurrency_limit_per_connection + max_concurrent_streams above the number of calls.
+fn with_config(case: &str, rng: &mut Rng) -> String {
+    let toks: Vec<&str> = case.split(' ').collect();
+    if toks.len() < 5 {
+        return case.to_string();
+    }
+    let tcp = toks[1] == "t" || toks[1] == "u";
+    let mut cfg: Vec<String> = Vec::new();
+    // over TCP the virtual clock also ticks while the script waits for the kernel: no timeout
+    // within a second of a sum of time steps there
+    let t: u64 = match rng.below(8) {
+        0 | 1 | 2 => 0,
+        3 | 4 => if tcp { 45 } else { 30 },
+        5 => if tcp { 45 } else { 60 },
+        6 => 3000,
+        _ => 100_000,
+    };
+    if t > 0 {
+        cfg.push(format!("t{}", t));
+    }
+    if rng.chance(1, 4) {
+        cfg.push(format!("k{}", rng.pick(&[10u64, 60])));
+    }
+    if rng.chance(1, 4) {
+        cfg.push(format!("l{}", rng.pick(&[8usize, 64])));
+    }
+    let mut v: Vec<String> = toks[..5].iter().map(|t| t.to_string()).collect();
+    v.extend(cfg);
+    v.extend(toks[5..].iter().map(|t| t.to_string()));
+    v.join(" ")
+}
+
 pub fn generate(tier: &str, rng: &mut Rng) -> Vec<String> {
+    let all = generate_scripts(tier, rng);
+    // every generated stream also runs under the configuration knobs (the corpus has its own)
+    all.into_iter().map(|c| if c.starts_with("sc:corpus ") { c } else { with_config(&c, rng) }).collect()
+}
+
+fn generate_scripts(tier: &str, rng: &mut Rng) -> Vec<String> {
     let thorough = tier == "thorough";
     let mut tcp = Vec::new();
     let mut out = corpus();
